@@ -17,7 +17,7 @@ func init() {
 			"no-store on either side, must-understand with a status outside the understood table, and absence of any freshness information with a non-heuristic status " +
 			"make the evaluator return false on every path; every store site of an origin response is dominated by a positive evaluator answer and by the GET/no-Range gate; " +
 			"a failed entry write prevents the index write.",
-		NotDecided: "which bytes reach the store; request method spelling; body-read failures inside net/http/httputil.",
+		NotDecided:  "which bytes reach the store; request method spelling; body-read failures inside net/http/httputil.",
 		Assumptions: []string{"store sites are reached only under the method/Range gate (checked in C06.5), so method==GET is assumed at them"},
 		Rules: []Rule{
 			{ID: "C06.1", Desc: "status cells 1xx/206/304 never reach the store", Run: ruleC06_1, MinSites: 3},
@@ -28,6 +28,7 @@ func init() {
 			{ID: "C06.6", Desc: "every store of an origin response is under a positive evaluator answer", Run: ruleC06_6, MinSites: 2},
 			{ID: "C06.7", Desc: "entry-write error gates the index write", Run: ruleC06_7, MinSites: 1},
 			{ID: "C06.8", Desc: "the evaluator receives the judged response's directives and the request's directives on every path", Run: func(c *Ctx) { ruleEvaluatorDirectives(c, "C06.8") }, MinSites: 2},
+			{ID: "C06.9", Desc: "storability depends on the request only through no-store", Run: func(c *Ctx) { ruleEvaluatorRequestDirectives(c, "C06.9") }, MinSites: 1},
 		},
 	})
 }
@@ -276,6 +277,7 @@ func ruleC06_4(c *Ctx) {
 	if !c.Need("C06.4", "canStore", "heurStatus", "freshness") {
 		return
 	}
+	ruleHeuristicStatuses(c, "C06.4")
 	heur := c.A.F("heurStatus")
 	tc, cells, err := c.An.IntTable(heur, 0, 999)
 	if err != nil {
